@@ -1127,13 +1127,22 @@ class ThermalBC:
         Returns:
           function: appropriate interpolation function
         """
-        base = inter.RegularGridInterpolator(
-            self._generate_surface_mesh(),
-            data,
+        times, ts, zs = self._generate_surface_mesh()
+
+        # The data are periodic in theta: close the grid with a copy of the
+        # first column at 2 pi and wrap the query angle into [0, 2 pi)
+        grid = inter.RegularGridInterpolator(
+            (times, np.append(ts, 2.0 * np.pi), zs),
+            np.concatenate((data, data[:, :1]), axis=1),
             method="linear",
             bounds_error=False,
             fill_value=None,
         )
+
+        def base(x):
+            x = np.array(x, dtype=float)
+            x[..., 1] = np.mod(x[..., 1], 2.0 * np.pi)
+            return grid(x)
 
         return _make_ifn(base)
 
